@@ -137,3 +137,220 @@ Proof.
 Qed.
 
 End Sound.
+
+(* ================= executing a wflip chain on the machine (C02_wflip_exec) ================= *)
+(* A chain stored in a memory: cs = [(x0,f0); (x1,f1); ...]: the op at bit address x_i has flip word f_i and its
+   jump word is x_{i+1} (R for the last one).  Independent of how an assembler builds it. *)
+From Coq Require Import Permutation.
+
+Section ChainExec.
+Variable ww : N.
+Variable sg : list (N * N).
+Local Open Scope N_scope.
+Notation wN := (w ww).
+
+Definition next_of (rest : list (N * N)) (R : N) : N := match rest with [] => R | (x, _) :: _ => x end.
+
+Definition op_in (mm : mem) (x f j : N) : Prop :=
+  x mod wN = 0 /\ valid sg (x / wN) = true /\ valid sg (x / wN + 1) = true
+  /\ mget0 mm (x / wN) = f /\ mget0 mm (x / wN + 1) = j.
+
+Fixpoint chain_in (mm : mem) (cs : list (N * N)) (R : N) : Prop :=
+  match cs with
+  | [] => True
+  | (x, f) :: rest => op_in mm x f (next_of rest R) /\ chain_in mm rest R
+  end.
+
+Lemma wN_pos : 0 < wN.
+Proof. unfold w. rewrite N.shiftl_1_l. apply N.neq_0_lt_0, N.pow_nonzero. discriminate. Qed.
+Lemma wN_pow : wN = 2 ^ ww.
+Proof. unfold w. now rewrite N.shiftl_1_l. Qed.
+
+Lemma shiftr_w x : N.shiftr x ww = x / wN.
+Proof. now rewrite N.shiftr_div_pow2, wN_pow. Qed.
+Lemma land_w x : N.land x (wN - 1) = x mod wN.
+Proof. rewrite wN_pow, N.sub_1_r, <- N.ones_equiv. apply N.land_ones. Qed.
+
+Lemma get_word_aligned mm x :
+  x mod wN = 0 -> valid sg (x / wN) = true -> get_word ww sg mm x = inr (mget0 mm (x / wN)).
+Proof.
+  intros Hm Hv. unfold get_word, rdw. rewrite shiftr_w, land_w, Hv, Hm. reflexivity.
+Qed.
+
+Lemma div_add_w x : x mod wN = 0 -> (x + wN) / wN = x / wN + 1 /\ (x + wN) mod wN = 0.
+Proof.
+  intros Hm. pose proof wN_pos as Hw. split.
+  - replace (x + wN) with (x + 1 * wN) by lia. rewrite N.div_add by lia. reflexivity.
+  - replace (x + wN) with (x + 1 * wN) by lia. rewrite N.mod_add by lia. exact Hm.
+Qed.
+
+Definition chain_words (cs : list (N * N)) : list N := flat_map (fun o => [fst o / wN; fst o / wN + 1]) cs.
+
+Lemma chain_in_mset mm cs R a v :
+  ~ In a (chain_words cs) -> chain_in mm cs R -> chain_in (mset mm a v) cs R.
+Proof.
+  induction cs as [|[x f] rest IH]; intros Hn H; [exact I|].
+  cbn [chain_in] in *. destruct H as [(H1 & H2 & H3 & H4 & H5) Hr].
+  cbn [chain_words flat_map fst app] in Hn.
+  split; [|apply IH; [intros X; apply Hn; right; right; exact X|exact Hr]].
+  unfold op_in. repeat split; auto.
+  - rewrite mget0_mset_other; [exact H4|]. intros ->. apply Hn. now left.
+  - rewrite mget0_mset_other; [exact H5|]. intros ->. apply Hn. right. now left.
+Qed.
+
+Fixpoint consec_ne (l : list N) : Prop :=
+  match l with
+  | x :: ((y :: _) as r) => x <> y /\ consec_ne r
+  | _ => True
+  end.
+
+(* running the chain: every op is executed once, flips its own flip word's bit and goes on *)
+Lemma chain_exec_run : forall cs mm R out0 k h x0,
+  cs <> [] -> next_of cs R = x0 -> chain_in mm cs R ->
+  (forall x, In x (map fst cs) -> covers_input ww x = false) ->
+  (forall f, In f (map snd cs) -> valid sg (f / wN) = true /\ ~ In (f / wN) (chain_words cs)) ->
+  consec_ne (map fst cs) ->
+  (forall x, In x (tl (map fst cs)) -> dw ww <= x) ->
+  exists s', chain_exec ww (mkimg sg mm) (List.length cs) (mkst x0 mm [] out0 k h) = Some (s', map snd cs)
+             /\ s'.(ip) = R /\ s'.(hist) = rev (map fst cs) ++ h.
+Proof.
+  induction cs as [|[x f] rest IH]; intros mm R out0 k h x0 Hne Hx0 Hch Hcov Htgt Hnd Hdw; [congruence|].
+  cbn [next_of] in Hx0. subst x0. cbn [chain_in] in Hch. destruct Hch as [(H1 & H2 & H3 & H4 & H5) Hrest].
+  cbn [List.length chain_exec]. unfold DenoteSpec.segs. cbn [i_segs ip m].
+  rewrite (get_word_aligned mm x H1 H2), H4.
+  assert (Hc : covers_input ww x = false) by (apply Hcov; now left).
+  destruct (Htgt f (or_introl eq_refl)) as [Hfv Hfn].
+  cbn [chain_words flat_map fst app] in Hfn.
+  assert (Hf1 : f / wN <> x / wN) by (intros E; apply Hfn; left; now rewrite E).
+  assert (Hf2 : f / wN <> x / wN + 1) by (intros E; apply Hfn; right; left; now rewrite E).
+  destruct (div_add_w x H1) as [Hd Hm].
+  set (mm' := mset mm (f / wN) (flip_bit ww (mget0 mm (f / wN)) f)).
+  assert (Hj : get_word ww sg mm' (x + wN) = inr (next_of rest R)).
+  { rewrite get_word_aligned by (rewrite ?Hd; assumption). rewrite Hd. unfold mm'.
+    rewrite mget0_mset_other by exact Hf2. now rewrite H5. }
+  assert (Hstep : step ww sg (mkst x mm [] out0 k h) =
+          let j := next_of rest R in
+          let s' := mkst j mm' [] (if is_output ww f then (f =? dw ww + 1) :: out0 else out0) (k + 1) (x :: h) in
+          if (j =? x) && negb ((x <=? f) && (f <? x + dw ww)) then inr (Looping, s')
+          else if j <? dw ww then inr (NullIP, s') else inl s').
+  { unfold step. cbn [ip m inp outp ops hist]. rewrite (get_word_aligned mm x H1 H2), H4, Hc.
+    unfold rdw. rewrite shiftr_w, Hfv. fold mm'. rewrite Hj. reflexivity. }
+  rewrite Hstep. cbn zeta.
+  destruct rest as [|[x1 f1] rest'].
+  - (* last op *)
+    cbn [next_of map snd fst List.length rev app].
+    destruct ((R =? x) && negb ((x <=? f) && (f <? x + dw ww))).
+    + eexists. split; [reflexivity|]. cbn. auto.
+    + destruct (R <? dw ww).
+      * eexists. split; [reflexivity|]. cbn. auto.
+      * cbn [chain_exec]. eexists. split; [reflexivity|]. cbn. auto.
+  - (* an op in the middle *)
+    cbn [next_of]. cbn [map fst snd] in Hnd, Hdw, Hcov, Htgt.
+    assert (Hne1 : x1 <> x) by (cbn [consec_ne] in Hnd; destruct Hnd as [Hnd _]; congruence).
+    assert (Hge : dw ww <= x1) by (apply Hdw; cbn; now left).
+    assert ((x1 =? x) = false) as -> by now apply N.eqb_neq.
+    assert ((x1 <? dw ww) = false) as -> by (apply N.ltb_ge; exact Hge).
+    cbn [andb].
+    destruct (IH mm' R (if is_output ww f then (f =? dw ww + 1) :: out0 else out0) (k + 1) (x :: h) x1) as (s' & E & Eip & Eh).
+    + discriminate.
+    + reflexivity.
+    + apply chain_in_mset; [|exact Hrest]. intros X. apply Hfn. right. right. exact X.
+    + intros y Hy. apply Hcov. right. exact Hy.
+    + intros g Hg. destruct (Htgt g (or_intror Hg)) as [T1 T2]. split; [exact T1|].
+      intros X. apply T2. cbn [chain_words flat_map fst app]. right. right. exact X.
+    + cbn [consec_ne] in Hnd. now destruct Hnd.
+    + intros y Hy. apply Hdw. cbn [tl]. right. cbn [map fst tl] in Hy. exact Hy.
+    + exists s'. split; [|split; [exact Eip|]].
+      * cbn [List.length]. change (chain_exec ww (mkimg sg mm) (S (List.length rest'))) with
+          (chain_exec ww (mkimg sg mm') (S (List.length rest'))). cbn [List.length] in E. rewrite E. reflexivity.
+      * rewrite Eh. cbn [map fst rev]. now rewrite <- !app_assoc.
+Qed.
+
+End ChainExec.
+
+Section WflipExec.
+Variable ww : N.
+Variable img : image.
+Local Open Scope N_scope.
+
+Lemma static_chain_eq cs : forall R,
+  cs <> [] -> chain_in ww (i_segs img) (i_mem img) cs R ->
+  static_chain ww img (List.length cs) (next_of cs R) = map fst cs.
+Proof.
+  induction cs as [|[x f] rest IH]; intros R Hne Hch; [congruence|].
+  cbn [List.length next_of static_chain map fst]. f_equal.
+  cbn [chain_in] in Hch. destruct Hch as [(H1 & H2 & H3 & H4 & H5) Hrest].
+  destruct (div_add_w ww x H1) as [Hd Hm].
+  unfold DenoteSpec.wN, DenoteSpec.segs, DenoteSpec.mem0.
+  rewrite (get_word_aligned ww (i_segs img) (i_mem img) (x + w ww)) by (rewrite ?Hd; assumption).
+  rewrite Hd, H5. destruct rest as [|[x1 f1] rest']; [reflexivity|].
+  cbn [next_of]. change x1 with (next_of ((x1, f1) :: rest') R). apply IH; [discriminate|exact Hrest].
+Qed.
+
+(* C02_wflip_exec: a chain that is stored in the image, whose flips are the bits of the statement and whose ops after
+   the first one are auxiliary (placed by aux_ok, not on the input-cell op, not below 2w), executes as the wflip clause
+   of Denotes demands - under the clause's stated side conditions *)
+Theorem wflip_exec (L : list placed) (a A V R : N) (cs : list (N * N)) :
+  cs <> [] -> next_of cs R = a ->
+  chain_in ww (i_segs img) (i_mem img) cs R ->
+  map snd cs = flip_bits ww A V ->
+  NoDup (map snd cs) ->
+  (forall x, In x (tl (map fst cs)) -> aux_ok ww img L x = true /\ covers_input ww x = false /\ dw ww <= x) ->
+  wflip_ok ww img L a A V R.
+Proof.
+  intros Hne Ha Hch Hfl Hndf Haux Hside.
+  assert (Hnd : consec_ne (map fst cs)).
+  { clear - Hch Hndf. revert Hch Hndf. generalize R. induction cs as [|[x f] rest IH]; intros R0 Hch Hnd; [exact I|].
+    destruct rest as [|[x1 f1] rest']; [exact I|].
+    cbn [map fst snd consec_ne] in *. cbn [chain_in] in Hch. destruct Hch as [(_ & _ & _ & H4 & _) Hch'].
+    pose proof Hch' as [(_ & _ & _ & G4 & _) _].
+    split.
+    - intros ->. inversion Hnd as [|? ? Hx _]; subst. apply Hx. left. congruence.
+    - apply (IH R0); [exact Hch'|now inversion Hnd]. } unfold wflip_side_ok in Hside.
+  apply andb_true_iff in Hside. destruct Hside as [Hc Ht]. apply negb_true_iff in Hc.
+  assert (Hlen : List.length (flip_bits ww A V) = List.length cs) by (rewrite <- Hfl; apply map_length).
+  rewrite Hlen in Ht. rewrite <- Ha in Ht. rewrite (static_chain_eq cs R Hne Hch) in Ht.
+  rewrite forallb_forall in Ht.
+  assert (Hhd : map fst cs = a :: tl (map fst cs)).
+  { destruct cs as [|[x f] rest]; [congruence|]. cbn in Ha. now subst. }
+  destruct (chain_exec_run ww (i_segs img) cs (i_mem img) R [] 0 [] a Hne Ha Hch) as (s' & E & Eip & Eh).
+  - intros x Hx. rewrite Hhd in Hx. destruct Hx as [<-|Hx]; [exact Hc|]. now apply Haux.
+  - intros f Hf. rewrite Hfl in Hf. specialize (Ht _ Hf). apply andb_true_iff in Ht. destruct Ht as [T1 T2].
+    split; [exact T1|]. apply negb_true_iff in T2. intros Hin.
+    assert (existsb (N.eqb (f / DenoteSpec.wN ww)) (flat_map (op_words ww) (map fst cs)) = true); [|congruence].
+    apply existsb_exists. exists (f / w ww). split; [|apply N.eqb_refl].
+    unfold chain_words in Hin. clear - Hin. induction cs as [|[x g] r IH]; [contradiction|].
+    cbn [flat_map map fst] in *. apply in_app_or in Hin. apply in_or_app. destruct Hin as [H|H]; [left; exact H|right; auto].
+  - exact Hnd.
+  - intros x Hx. now apply Haux.
+  - exists s', (map snd cs), (tl (map fst cs)). rewrite Hlen. destruct img as [sgs mm]. cbn [i_segs i_mem] in *.
+    unfold mem0. cbn [i_mem]. split; [exact E|]. split; [|split; [|split; [rewrite Hfl; apply Permutation_refl|exact Eip]]].
+    + rewrite Eh, app_nil_r, rev_involutive. exact Hhd.
+    + apply forallb_forall. intros x Hx. now apply Haux.
+Qed.
+
+End WflipExec.
+
+Lemma flip_bits_nodup ww A V : NoDup (flip_bits ww A V).
+Proof.
+  unfold flip_bits. destruct (V =? 0)%N; [constructor; [intros []|constructor]|].
+  apply FinFun.Injective_map_NoDup; [intros x y H; lia|].
+  apply NoDup_filter. unfold bit_indices. apply FinFun.Injective_map_NoDup; [intros x y H; lia|apply seq_NoDup].
+Qed.
+
+(* what remains to be shown about a wflip statement once the other clauses hold: a chain stored in the image *)
+Definition wflip_chain_ok (ww : N) (img : image) (L : list placed) (lbls : labels) (p : placed) : Prop :=
+  match pl_stmt p with
+  | SWordFlip ea ev er _ =>
+    let a := pl_addr p in
+    let env := env_at lbls (pl_next p) in
+    exists A V R cs,
+      eval_expr env ea = Some A /\ eval_expr env ev = Some V /\ eval_expr env er = Some R
+      /\ (0 <= a /\ a mod wz ww = 0 /\ 0 <= A /\ 0 <= V < 2 ^ wz ww /\ 0 <= R)%Z
+      /\ cs <> [] /\ next_of cs (Z.to_N R) = Z.to_N a
+      /\ chain_in ww (i_segs img) (i_mem img) cs (Z.to_N R)
+      /\ map snd cs = flip_bits ww (Z.to_N A) (Z.to_N V)
+      /\ (forall x, In x (tl (map fst cs)) ->
+                    aux_ok ww img L x = true /\ covers_input ww x = false /\ (dw ww <= x)%N)
+  | _ => True
+  end.
